@@ -182,6 +182,10 @@ def run(tier):
         scs = [(k * 10 + j, e) for k, e in scs for j in range(4)]
     with mp.Pool(core.NCPU) as pool:
         cases = [c for part in pool.map(gen, [(w, scs[w::core.NCPU], core.seed()) for w in range(core.NCPU)]) for c in part]
+    # joblib cannot start workers from inside a pool worker (n_jobs > 1 runs sequentially there): a few scenarios are also run
+    # here in the main process so that the n_jobs route of the local measure really is parallel
+    main_scs = [(9000 + k, e) for k, e in scs[:: max(1, len(scs) // (6 if tier == "quick" else 40))]]
+    cases += gen((98, main_scs, core.seed()))
     verdicts, stats = core.validate_cases("trace/TraceRecon.tla", [strip(c) for c in cases], timeout=7200)
     rep.add_trace_stats("TraceRecon", stats, len(cases))
     core.judge(rep, cases, verdicts)
